@@ -3,6 +3,7 @@
 //! Line:  <id> : <config> : <ops> : <observations>
 //!   config = ng {retain init} np { nv {retain init bound(0/1)} }      (all variables are INT; program p's body adds p+1+i to
 //!            variable i, adds 1 to every global and publishes bound variables on %QW(16*p+2*i))
+//!   every configuration also has an event task (SINGLE := trig) whose program counts its activations in evc; op 6 v sets trig
 //!   ops    = 0 dt (cycle) | 1 i v (set global) | 2 p i v (set program var) | 3 warm(0/1) (restart) | 4 (save, power cycle, load) | 5 (fault)
 //!   obs    = per op: ng values, per program nv values, per bound variable the %QW word, time_ns, cycle_count(of the harness is not used) faulted
 use std::io::Write;
@@ -22,8 +23,9 @@ fn source(c: &Case) -> String {
     for (i, g) in c.globals.iter().enumerate() {
         s += &format!("VAR_GLOBAL{} g{i} : INT := {}; END_VAR\n", if g.retain { " RETAIN" } else { "" }, g.init);
     }
+    s += "VAR_GLOBAL trig : BOOL := FALSE; evc : INT := 0; END_VAR\nTASK Ev (SINGLE := trig, PRIORITY := 1);\nPROGRAM PE WITH Ev : MainE;\n";
     for p in 0..c.progs.len() { s += &format!("PROGRAM P{p} : Main{p};\n"); }
-    s += "END_CONFIGURATION\n";
+    s += "END_CONFIGURATION\nPROGRAM MainE\nVAR_EXTERNAL\n  evc : INT;\nEND_VAR\nevc := evc + INT#1;\nEND_PROGRAM\n";
     for (p, vars) in c.progs.iter().enumerate() {
         s += &format!("PROGRAM Main{p}\n");
         if !c.globals.is_empty() {
@@ -67,7 +69,7 @@ fn observe(h: &TestHarness, c: &Case) -> String {
             }
         }
     }
-    o += &format!(" {} {}", h.runtime().current_time().as_nanos(), h.runtime().faulted() as u8);
+    o += &format!(" {} {} {}", h.runtime().current_time().as_nanos(), h.runtime().faulted() as u8, ival(st.get_global("evc")));
     o
 }
 
@@ -96,6 +98,7 @@ fn run_case(c: &Case, workdir: &str, tag: &str) -> Result<String, String> {
                 fresh.runtime_mut().load_retain_store().map_err(|e| format!("load: {e:?}"))?;
                 h = fresh;
             }
+            6 => { h.runtime_mut().storage_mut().set_global("trig".to_string(), Value::Bool(op[1] != 0)); }
             _ => { let _ = h.runtime_mut().simulation_fault("verif"); }
         }
         out += &observe(&h, c);
@@ -128,7 +131,7 @@ fn parse_case(line: &str) -> Option<(String, Case)> {
     let o: Vec<i64> = parts[2].split_whitespace().map(|x| x.parse().unwrap()).collect();
     let mut ops = Vec::new(); let mut j = 0;
     while j < o.len() {
-        let w = match o[j] { 0 => 2, 1 => 3, 2 => 4, 3 => 2, _ => 1 };
+        let w = match o[j] { 0 => 2, 1 => 3, 2 => 4, 3 => 2, 6 => 2, _ => 1 };
         ops.push(o[j..j + w].to_vec()); j += w;
     }
     Some((parts[0].trim().to_string(), Case { globals, progs, ops }))
@@ -141,7 +144,8 @@ fn gen_case(rng: &mut Rng) -> Case {
     let progs: Vec<Vec<V>> = (0..np).map(|_| (0..rng.range(1, 4)).map(|_| V { retain: rng.chance(1, 2), init: rng.range(-5, 50), bound: rng.chance(1, 2) }).collect()).collect();
     let mut ops = Vec::new();
     for _ in 0..rng.range(1, 14) {
-        match rng.below(12) {
+        match rng.below(15) {
+            12 | 13 => ops.push(vec![6, rng.chance(2, 3) as i64]),
             0 | 1 if ng > 0 => ops.push(vec![1, rng.below(ng as u64) as i64, rng.range(-100, 100)]),
             2 | 3 => { let p = rng.below(np as u64) as usize; ops.push(vec![2, p as i64, rng.below(progs[p].len() as u64) as i64, rng.range(-100, 100)]); }
             4 => ops.push(vec![3, 0]),
